@@ -31,10 +31,11 @@ type queryRequest struct {
 }
 
 type queryEvent struct {
-	r   resource
-	sub *nats.Subscription
-	ch  chan *nats.Msg
-	cb  func(r QueryRequest)
+	r       resource
+	sub     *nats.Subscription
+	ch      chan *nats.Msg
+	cb      func(r QueryRequest)
+	expired bool // Flag set once cb has been called with nil. Only accessed from the resource's worker group.
 }
 
 // Model sends a model response for the query request.
@@ -146,6 +147,13 @@ func (qe *queryEvent) handleQueryRequest(m *nats.Msg) {
 	qr := &queryRequest{
 		resource: qe.r,
 		msg:      m,
+	}
+
+	// A request that was in flight when the query event expired.
+	// The callback has had its last call and must not be called again.
+	if qe.expired {
+		qr.error(ErrTimeout)
+		return
 	}
 
 	var rqr resQueryRequest
